@@ -134,6 +134,12 @@ impl FromStr for HandRangeToken {
     type Err = ();
 
     fn from_str(s: &str) -> Result<Self, Self::Err> {
+        if let Some(index) = s.bytes().position(|b| b == b':') {
+            if parse_probability(&s[index..]) > 1.0 {
+                return Err(());
+            }
+        }
+
         let double_closed_pocket_pair_range_regex =
             Regex::new(r"^[AKQJT98765432]{2}-[AKQJT98765432]{2}(:[01](\.[0-9]+)?)?$").unwrap();
         let double_rank_pair_range_regex =
